@@ -98,6 +98,7 @@ class Warnings:
 
 class Logging:
     _pyvc_model_class = True
+    config = Dummy('logging.config')
     DEBUG, INFO, WARNING, ERROR = 10, 20, 30, 40
 
     @staticmethod
@@ -120,10 +121,204 @@ class LoggerModel:
     _pyvc_model_class = True
 
     def _getattr(self, name):
+        if name == 'getChild':
+            return model(lambda *a, **k: LoggerModel())
+
         @model
         def log(*a, **k):
             core.ctx().event('log', name)
         return log
+
+
+class OpaqueValue:
+    """A library value the executor only passes around (parsed JSON, data frames, paths ...)."""
+    _pyvc_model_class = True
+
+    def __init__(self, what, **info):
+        self.what = what
+        self.info = info
+
+    def __repr__(self):
+        return f'<{self.what}>'
+
+    def _getattr(self, name):
+        if name in ('what', 'info'):
+            return object.__getattribute__(self, name)
+        info = object.__getattribute__(self, 'info')
+        if name in info:
+            return info[name]
+        try:
+            return object.__getattribute__(self, name)
+        except AttributeError:
+            raise Unsupported(f'{self.what}.{name} is not modelled')
+
+    def _format(self, spec):
+        from .strings import OpaqueStr
+        return OpaqueStr(f'<{self.what}>')
+
+
+def choice(name):
+    """A nondeterministic boolean outcome of a library call (both outcomes explored)."""
+    c = core.ctx()
+    return c.branch(c.fresh_bool(name).z)
+
+
+class JsonModel:
+    _pyvc_model_class = True
+    JSONDecodeError = json.JSONDecodeError
+
+    @staticmethod
+    @model
+    def loads(s, **kw):
+        from ..core import SStr
+        if isinstance(s, SStr):
+            core.ctx().lib_used.add('PY-JSON (loads either raises JSONDecodeError or returns some value)')
+            core.ctx().event('json.loads', s)
+            if choice('json_loads_ok'):
+                return OpaqueValue('json', source=s)
+            raise PyRaise(ExcObj(json.JSONDecodeError, ('invalid json',)))
+        try:
+            return json.loads(s, **kw)
+        except ValueError as e:
+            raise PyRaise(ExcObj(type(e), (str(e),)))
+
+    @staticmethod
+    @model
+    def load(f, **kw):
+        core.ctx().event('json.load', f)
+        if choice('json_load_ok'):
+            return OpaqueValue('json', source=f)
+        raise PyRaise(ExcObj(json.JSONDecodeError, ('invalid json',)))
+
+    @staticmethod
+    @model
+    def dump(obj, f, **kw):
+        core.ctx().event('json.dump', obj, f, kw)
+
+    @staticmethod
+    @model
+    def dumps(obj, **kw):
+        from ..core import is_sym
+        core.ctx().event('json.dumps', obj)
+        try:
+            return json.dumps(obj, **kw)
+        except TypeError:
+            return BytesOf('json', obj)
+
+
+class PathModel:
+    """pathlib.Path over a symbolic (or opaque) string."""
+    _pyvc_model_class = True
+
+    def __init__(self, s, suffix=None):
+        self.s = s
+        self._suffix = suffix
+
+    def exists(self):
+        core.ctx().event('path.exists', self)
+        return choice('path_exists')
+
+    @property
+    def suffix(self):
+        if self._suffix is None:
+            self._suffix = core.ctx().fresh_str('suffix')
+        return self._suffix
+
+    def open(self, *a, **k):
+        core.ctx().event('path.open', self, a)
+        return FileModel((self,) + a, k)
+
+    def __truediv__(self, other):
+        return PathModel(('join', self, other))
+
+    def _format(self, spec):
+        from .strings import OpaqueStr
+        return OpaqueStr('<path>')
+
+    def __repr__(self):
+        return f'<Path {self.s!r}>'
+
+
+class PathlibModel:
+    _pyvc_model_class = True
+    PurePath = pathlib.PurePath
+
+    @staticmethod
+    @model
+    def Path(*a):
+        from ..core import SStr
+        if len(a) == 1 and isinstance(a[0], (SStr, OpaqueValue, PathModel)):
+            return a[0] if isinstance(a[0], PathModel) else PathModel(a[0])
+        return pathlib.Path(*a)
+
+
+class FrameStub(OpaqueValue):
+    def __init__(self, what='dataframe'):
+        super().__init__(what)
+
+    def _getattr(self, name):
+        if name == 'iloc':
+            return _ILoc(self)
+        if name == 'head':
+            return model(lambda *a: FrameStub('rows-head'))
+        raise Unsupported(f'DataFrame.{name} is not modelled')
+
+    def _len(self):
+        return core.ctx().fresh_int('nrows')
+
+
+class _ILoc:
+    _pyvc_model_class = True
+
+    def __init__(self, df):
+        self.df = df
+
+    def _getitem(self, idx):
+        core.ctx().event('iloc', self.df, idx)
+        return FrameStub('rows')
+
+
+class PandasModel:
+    _pyvc_model_class = True
+
+    @staticmethod
+    @model
+    def read_csv(path, **kw):
+        core.ctx().event('call', 'pandas.read_csv', path, kw)
+        return FrameStub('dataframe')
+
+
+class TempDir:
+    _pyvc_model_class = True
+
+    def __init__(self, *a, **k):
+        self.path = PathModel(OpaqueValue('tempdir'))
+        core.ctx().event('TemporaryDirectory', k)
+
+    def _cm_enter(self):
+        return self.path
+
+    def _cm_exit(self, exc):
+        core.ctx().event('TemporaryDirectory.cleanup')
+        return False
+
+
+class TempfileModel:
+    _pyvc_model_class = True
+    TemporaryDirectory = TempDir
+
+
+class NullContext:
+    _pyvc_model_class = True
+
+    def __init__(self, value=None):
+        self.value = value
+
+    def _cm_enter(self):
+        return self.value
+
+    def _cm_exit(self, exc):
+        return False
 
 
 class Functools:
@@ -142,6 +337,8 @@ class Contextlib:
     _pyvc_model_class = True
     suppress = Suppress
     contextmanager = Dummy('contextmanager')
+    nullcontext = NullContext
+    AbstractContextManager = Dummy('AbstractContextManager')
 
 
 class Abc:
@@ -210,6 +407,14 @@ class Metadata:
         return list(eps)
 
 
+@model
+def _version(name):
+    return '0.0.0+model'
+
+
+Metadata.version = staticmethod(_version)
+
+
 class Importlib:
     _pyvc_model_class = True
     metadata = Metadata
@@ -275,10 +480,15 @@ def make_libs():
         'warnings': Warnings,
         'hashlib': Hashlib,
         'marshal': Marshal,
-        'pathlib': pathlib,
-        'json': json,
+        'pathlib': PathlibModel,
+        'json': JsonModel,
+        'argparse': __import__('argparse'),
+        'decimal': __import__('decimal'),
+        'tempfile': TempfileModel,
+        'pandas': PandasModel,
+        'pkgutil': Dummy('pkgutil'),
         'os': os,
-        're': re,
+        're': __import__('pyvc.lib.regex', fromlist=['ReModule']).ReModule,
         'textwrap': textwrap,
         'datetime': datetime,
         'time': Dummy('time'),
